@@ -443,12 +443,65 @@ def _literal_ident_prefix(cx):
 
 
 def _abbreviation_alphabet_ok(F):
-    b = F.lib.body("model::doc::make_abbreviated_namespace::take_three_chars_max")
-    if b is None or b.get("hir") is None:
-        return False
-    nb = Hh.norm_body(b)
-    d = " ".join(Hh.describe(x) for x in Hh.exprs(nb["value"]))
-    return "is_ascii_alphanumeric" in d and "filter" in d
+    """Every character that make_abbreviated_namespace (and the local functions it calls) puts into a String comes from a
+    `chars()` iteration and passes an `is_ascii_alphanumeric` test on that very character: as an iterator filter before `collect`,
+    or as the condition under which it is pushed (including `if !ok { continue }`). At least one such sink must exist."""
+    from engine.rulekit import scans
+    root = "model::doc::make_abbreviated_namespace"
+    g = scans.call_graph(F.lib)
+    fns, frontier = [root], [root]
+    for _ in range(2):
+        nxt = []
+        for fn in frontier:
+            for c in sorted(g.get(fn, ())):
+                cb = F.lib.body(c)
+                if cb is not None and cb.get("hir") is not None and not cb.get("closure") and c not in fns:
+                    fns.append(c)
+                    nxt.append(c)
+        frontier = nxt
+    W = og.EnvWalker(F)
+    sinks = []
+
+    def is_alnum_test(cond, branch, el):
+        c = cond
+        while isinstance(c, tuple) and c[0] == "not":
+            c, branch = c[1], not branch
+        return branch and isinstance(c, tuple) and c[0] == "call" and str(c[1]).endswith("is_ascii_alphanumeric") and c[2] and c[2][0] == el
+
+    def cb(e, env, ctx):
+        if e.get("k") != "MethodCall":
+            return
+        if e["name"] == "collect" and "String" in (e.get("ty") or ""):
+            src, val, conds = og.iter_view(_strip_take(W.NF.nf(e["recv"], env)))
+            if isinstance(src, tuple) and src[0] == "call" and str(src[1]).endswith("chars"):
+                el = ("elem", src)
+                sinks.append(val == el and any(is_alnum_test(c, b, el) for c, b in conds))
+            else:
+                sinks.append(False)
+        if e["name"] == "push" and "String" in (Hh.strip(e["recv"]).get("ty") or "") + (Hh.strip(e["recv"]).get("adj_ty") or ""):
+            v = W.NF.nf(e["args"][0], env)
+            if v[0] == "lit":
+                return
+            stars = [c for c in ctx if c[0] == "star"]
+            ok = False
+            for st in stars:
+                el = ("elem", st[1])
+                if v == el and isinstance(st[1], tuple) and st[1][0] == "call" and str(st[1][1]).endswith("chars"):
+                    ok = any(c[0] == "alt" and is_alnum_test(c[1], c[2], el) for c in ctx)
+            sinks.append(ok)
+    for fn in fns:
+        try:
+            W.walk_fn(fn, cb)
+        except og.Unrecognised:
+            return False
+    return bool(sinks) and all(sinks)
+
+
+def _strip_take(nf):
+    """`iter.take(n)` / `.skip(n)` only shorten the sequence: the characters that remain still passed what comes before"""
+    while isinstance(nf, tuple) and nf[0] == "call" and isinstance(nf[1], str) and nf[1].rsplit("::", 1)[-1] in ("take", "skip", "rev", "fuse") and nf[2]:
+        nf = nf[2][0]
+    return nf
 
 
 def _hole_desc(ev, i):
